@@ -7,7 +7,7 @@ import Revm.Props.C34
 import Revm.Proofs.EvmLinkStatic4
 import Revm.Proofs.EvmLinkGasInv4
 import Revm.Proofs.EvmLinkSame
-import Revm.Proofs.EvmLinkEther8
+import Revm.Proofs.EvmLinkEther9
 import Revm.Proofs.EvmLinkStatic6
 /-! C01Link — the whole-transaction model `Revm.Model.Evm.transact` (C01) SATISFIES the component properties.
 
@@ -761,7 +761,8 @@ journal state, and the sum of the initial balances over `L` below 2^256 (C08's h
     = Σ_L balances(before).
 
 `burnt w'.js` is the ether that SELFDESTRUCTs naming themselves as target destroyed (C08 `burnt`); before London
-`burntPerGas` is 0. `L`: the accounts present in the final journal state, not `World.addrs` — see the report. -/
+`burntPerGas` is 0. `L` is any list covering the accounts present in the final journal state; `World.addrs` of the
+final world is such a list (`transact_conserves_ether_addrs`). -/
 theorem transact_conserves_ether (fuel : Nat) (w w' : World) (e : Evm.Env) (spec : Nat) (r : TxResult) (L : List Nat)
     (h : Evm.transact fuel w e spec = .ok (.executed r, w'))
     (hL : e.tx.gasLimit < U64) (hn : L.Nodup) (hK : KeysIn L w')
@@ -769,6 +770,26 @@ theorem transact_conserves_ether (fuel : Nat) (w w' : World) (e : Evm.Env) (spec
     total L w'.db w'.js + burntPerGas (GasCalc.canon spec) (feeEnv e) * r.gasUsed
       + dataFee (GasCalc.canon spec) (feeEnv e) + burnt w'.js = total L w.db w.js :=
   transact_conserves fuel w w' e spec r L h hL hn hK hok hj hSum
+
+/-- LINK: **`World.addrs` covers the journal**: every `World` / `Host` operation notes the accounts it may add to the
+journal's state map (each journal operation adds at most the accounts it names: `Proofs.EvmLink.Keys`), so if every
+account present before `Evm.transact` is in `World.addrs`, every account present after it is -/
+theorem evm_addrs_cover_journal (fuel : Nat) (w w' : World) (e : Evm.Env) (spec : Nat) (r : TxResult)
+    (h : Evm.transact fuel w e spec = .ok (.executed r, w')) (hN : Noted w) : Noted w' :=
+  transact_noted fuel w w' e spec r h hN
+
+open Revm.Spec.Ether Revm.Proofs.Ether in
+/-- COROLLARY: **ether conservation over the address list the model maintains** — `L` = `World.addrs` of the final
+world without repetitions (`dedup`); on a world whose journal holds only noted accounts (a fresh journal holds none) -/
+theorem transact_conserves_ether_addrs (fuel : Nat) (w w' : World) (e : Evm.Env) (spec : Nat) (r : TxResult)
+    (h : Evm.transact fuel w e spec = .ok (.executed r, w'))
+    (hL : e.tx.gasLimit < U64) (hN : Noted w)
+    (hok : BalOk w.db w.js) (hj : JB w.js = []) (hSum : total (dedup w'.addrs) w.db w.js < W) :
+    total (dedup w'.addrs) w'.db w'.js + burntPerGas (GasCalc.canon spec) (feeEnv e) * r.gasUsed
+      + dataFee (GasCalc.canon spec) (feeEnv e) + burnt w'.js = total (dedup w'.addrs) w.db w.js :=
+  transact_conserves_addrs fuel w w' e spec r h hL hN hok hj hSum
+
+example : Noted sampleWorld := fun _ ha => absurd rfl ha
 
 open Revm.Spec.Ether in
 /-- the hypotheses on the initial world hold for the sample world (fresh journal), and the ledger equation of the
@@ -786,5 +807,10 @@ def ledgerCheck (fuel : Nat) (w : World) (e : Evm.Env) (spec : Nat) (L : List Na
   | _ => false
 
 example : ledgerCheck 10 sampleWorld sampleEnv 17 [0xaa, 0xbb, 0] 147000 = true := by decide +kernel
+
+/-- the address list of the sample run: sender, recipient, beneficiary -/
+example : (match Evm.transact 10 sampleWorld sampleEnv 17 with
+    | .ok (_, w') => dedup w'.addrs
+    | _ => []) = [0, 0xbb, 0xaa] := by decide +kernel
 
 end Revm.Props.C01Link
